@@ -1,22 +1,27 @@
 (** C13  A container is running or in cleanup, never both, and follows the cache.
 
-    Model: Node/AppCfg.v (AppCfgMgr handlers, MonitorContainerCleanup.execute, Cleanup.invoke;
-    inotify as a FIFO queue; the code as it is).  The unchanged code does NOT satisfy the
-    statement: each part of it has a [.._refuted] witness below (event sequences evaluated by
-    vm_compute, each reproduced on the real code by the harness oracle), followed by the part
-    that is proved: for ALL event sequences the link-shape invariant, and for every
-    well-formed state the behaviour of the handlers / of one resynchronisation for an
-    instance that has a single container directory. *)
+    Model: Node/AppCfg.v (AppCfgMgr handlers after the repairs of _synchronize, _on_deleted and
+    _on_created; MonitorContainerCleanup.execute; Cleanup.invoke; inotify as a FIFO queue).
+
+    Proved for ALL event sequences (every reachable state, every iteration order):
+      - an unchanged running container is left running by every handler (C13_unchanged_stays);
+      - a container with an exitinfo / aborted / oom file that is not running is started by no handler
+        (C13_no_restart_finished);
+      - after a resynchronisation the running link of every instance is given by [expected_running]
+        (C13_sync_running): the cached manifest runs exactly when it can be configured;
+      - a running container whose cache entry is gone or replaced is handed to cleanup (C13_gone_to_cleanup_event, C13_gone_to_cleanup_sync);
+      - the link-shape invariant (C13_one_link_partial).
+    Still refuted (recorded findings): two cleanup links through the two naming schemes
+    (C13_one_link_refuted) and a finished container re-created after its cleanup while the placement
+    still exists (C13_finished_recreated_refuted). *)
 From Coq Require Import ZArith List Bool.
 From TM Require Import Node.AppCfg Node.AppCfgP.
 Import ListNotations.
 Open Scope Z_scope.
 
-(** * Refutations (the code as it is) *)
+(** * Refutations that remain (known findings) *)
 
-(** "each container is referenced by at most one link" -- naming mismatch:
-    _terminate names the cleanup link after the container, _synchronize after the instance.
-    cache put, configured, cache delete -> _terminate; manager restart; resynchronisation. *)
+(** _terminate names the cleanup link after the container, _synchronize after the instance *)
 Definition w_two_cleanup_links : list op :=
   [ReadyUp; Deliver [] []; CachePut 0 0 true; Deliver [] []; CacheDel 0; Deliver [] [];
    Restart; ReadyUp; Deliver [] []].
@@ -27,182 +32,133 @@ Theorem C13_one_link_refuted :
 Proof. exists w_two_cleanup_links. vm_compute. repeat split. Qed.
 Print Assumptions C13_one_link_refuted.
 
-(** "a finished container is never started again" and "running or in cleanup, never both":
-    a created event that was queued before a resynchronisation is handled after the container,
-    started by that resynchronisation, has already exited: _on_created configures it again. *)
-Definition w_late_event : list op :=
-  [ReadyUp; CachePut 0 0 true; Deliver [] []; Exit 0 KExit; Deliver [] []].
-Theorem C13_no_restart_finished_refuted :
-  exists ops o, let s := run ops init in let s' := step s o in
-    (exists fl, aget (apps s) (0, 0) = Some fl /\ flagged fl = true) /\
-    rget (running s) 0 = None /\ lget (cleanup s) (LInst 0) = Some (0, 0) /\
-    rget (running s') 0 = Some (0, 0) /\ lget (cleanup s') (LInst 0) = Some (0, 0) /\ one_link s' = false.
-Proof.
-  exists [ReadyUp; CachePut 0 0 true; Deliver [] []; Exit 0 KExit], (Deliver [] []).
-  vm_compute. repeat split. eexists; split; reflexivity.
-Qed.
-Print Assumptions C13_no_restart_finished_refuted.
-
-(** "an unchanged running container is left running": (a) the instance is evicted and placed again before the
-    manager handles the first event: the created event configures the NEW file, the stale deleted event
-    terminates it, the second created event starts it again while it is in cleanup *)
-Definition w_stale_delete : list op :=
-  [ReadyUp; Deliver [] []; CachePut 0 0 true; CacheDel 0; CachePut 0 1 true;
-   Deliver [] []; Deliver [] []; Deliver [] []].
-Theorem C13_unchanged_stays_refuted_event :
-  exists ops o, let s := run ops init in let s' := step s o in
-    rget (running s) 0 = Some (0, 1) /\ cget (cache s) 0 = Some (1, true) /\
-    aget (apps s) (0, 1) = Some no_flags /\ hd_error (queue s) = Some (EvDeleted 0) /\
-    rget (running s') 0 = None /\ lget (cleanup s') (LCont (0, 1)) = Some (0, 1) /\
-    one_link (step s' (Deliver [] [])) = false.
-Proof.
-  exists [ReadyUp; Deliver [] []; CachePut 0 0 true; CacheDel 0; CachePut 0 1 true; Deliver [] []], (Deliver [] []).
-  vm_compute. repeat split.
-Qed.
-Print Assumptions C13_unchanged_stays_refuted_event.
-
-(** (b) evicted and placed again, the old generation still waits in cleanup, readiness flips:
-    the resynchronisation terminates the NEW, cached, running generation -- for either iteration order *)
-Definition w_two_generations : list op :=
-  [ReadyUp; Deliver [] []; CachePut 0 0 true; Deliver [] []; CacheDel 0; Deliver [] [];
-   CachePut 0 1 true; Deliver [] []; ReadyDown; Deliver [] []; ReadyUp].
-Theorem C13_unchanged_stays_refuted_sync :
+(** the container finished and was cleaned up, the placement (cache entry) is still there, readiness
+    flips: the same container name is configured and started again *)
+Definition w_finished_recreated : list op :=
+  [CachePut 0 0 true; ReadyUp; Deliver [] []; Deliver [] []; Exit 0 KExit; CleanupDone (LInst 0);
+   ReadyDown; Deliver [] []; ReadyUp; Deliver [] []].
+Theorem C13_finished_recreated_refuted :
   exists ops, let s := run ops init in
-    rget (running s) 0 = Some (0, 1) /\ cget (cache s) 0 = Some (1, true) /\
-    aget (apps s) (0, 1) = Some no_flags /\ active s = false /\ queue s = [EvReadyUp] /\
-    forall oc, oc = [(0, 0); (0, 1)] \/ oc = [(0, 1); (0, 0)] ->
-      rget (running (step s (Deliver oc []))) 0 = None.
-Proof.
-  exists w_two_generations. vm_compute. repeat split. intros oc [->| ->]; reflexivity.
-Qed.
-Print Assumptions C13_unchanged_stays_refuted_sync.
+    memb cont_eqb (0, 0) (finished s) = true /\ rget (running s) 0 = Some (0, 0).
+Proof. exists w_finished_recreated. vm_compute. split; reflexivity. Qed.
+Print Assumptions C13_finished_recreated_refuted.
 
-(** "after a synchronisation the running links are exactly the configurable cached manifests":
-    the manager was down while the manifest was replaced; the resynchronisation terminates the old
-    generation and forgets the new one (no event is pending): the instance stays down *)
-Definition w_replaced_while_down : list op :=
-  [CachePut 0 0 true; ReadyUp; Deliver [] []; Deliver [] []; CachePut 0 1 true; Restart; ReadyUp; Deliver [] []].
-Theorem C13_sync_running_refuted :
-  exists ops, let s := run ops init in
-    cget (cache s) 0 = Some (1, true) /\ aget (apps s) (0, 1) = None /\
-    rget (running s) 0 = None /\ queue s = [] /\ active s = true /\
-    lget (cleanup s) (LCont (0, 0)) = Some (0, 0).
-Proof. exists w_replaced_while_down. vm_compute. repeat split. Qed.
-Print Assumptions C13_sync_running_refuted.
+(** * What is proved, for every event sequence *)
 
-(** * What is proved *)
-
-(** ALL event sequences: a container can be linked only as running/<its instance>, cleanup/<its instance>
-    and cleanup/<its own name>; hence at most one running link, and two cleanup links only through the
-    two naming schemes *)
+(** a container can be linked only as running/<its instance>, cleanup/<its instance> and
+    cleanup/<its own name>: at most one running link, two cleanup links only through the two naming schemes *)
 Theorem C13_one_link_partial : forall ops,
   let s := run ops init in
   (forall i c, rget (running s) i = Some c -> i = app_name c) /\
   (forall l c, lget (cleanup s) l = Some c -> l = LInst (app_name c) \/ l = LCont c).
-Proof.
-  intros ops s. destruct (links_wf_all ops) as [W1 W2]. split; [|exact W2].
-  intros i c H. symmetry. now apply W1.
-Qed.
+Proof. intros ops. exact (reach_one_link_partial ops). Qed.
 Print Assumptions C13_one_link_partial.
 
 (** the first ready event of an inactive manager is a resynchronisation *)
 Theorem C13_first_sync : forall s oc oi,
   active s = false -> handle s EvReadyUp oc oi = synchronize (with_active s true) oc oi.
-Proof. intros s oc oi H. cbn. now rewrite H. Qed.
+Proof. intros s oc oi H. exact (first_sync s oc oi H). Qed.
 Print Assumptions C13_first_sync.
 
-(** a deleted event of an active manager hands the instance's running container to cleanup
-    and touches no other running link (every state) *)
+(** an unchanged running container is left running: every reachable state, EVERY handler call (created,
+    deleted -- also a stale one --, ready up/down incl. a resynchronisation with other generations in apps/) *)
+Theorem C13_unchanged_stays : forall ops e oc oi i f ok,
+  let s := run ops init in
+  rget (running s) i = Some (i, f) -> aget (apps s) (i, f) <> None -> cget (cache s) i = Some (f, ok) ->
+  rget (running (handle s e oc oi)) i = Some (i, f).
+Proof. intros ops e oc oi i f ok. exact (reach_unchanged_stays ops e oc oi i f ok). Qed.
+Print Assumptions C13_unchanged_stays.
+
+(** a container that has an exitinfo / aborted / oom file and is not running is started by no handler call *)
+Theorem C13_no_restart_finished : forall ops e oc oi c fl,
+  let s := run ops init in
+  aget (apps s) c = Some fl -> flagged fl = true -> rget (running s) (app_name c) <> Some c ->
+  rget (running (handle s e oc oi)) (app_name c) <> Some c.
+Proof. intros ops e oc oi c fl. exact (reach_no_restart_finished ops e oc oi c fl). Qed.
+Print Assumptions C13_no_restart_finished.
+
+(** after a resynchronisation the running link of every instance is [expected_running]: the cached manifest's
+    container if it was already running, or if it is not in cleanup, not finished and configure succeeds;
+    otherwise none (a running generation without a matching manifest is terminated) *)
+Theorem C13_sync_running : forall ops oc oi i,
+  let s := run ops init in
+  rget (running (synchronize s oc oi)) i = expected_running s i.
+Proof. intros ops oc oi i. exact (reach_sync_running ops oc oi i). Qed.
+Print Assumptions C13_sync_running.
+
+(** in particular: a cached, configurable manifest whose container does not exist yet is running afterwards,
+    whatever older generations of the instance are in apps/ *)
+Theorem C13_sync_configures_new : forall ops oc oi i f,
+  let s := run ops init in
+  cget (cache s) i = Some (f, true) -> aget (apps s) (i, f) = None ->
+  rget (running (synchronize s oc oi)) i = Some (i, f).
+Proof. intros ops oc oi i f. exact (reach_sync_configures_new ops oc oi i f). Qed.
+Print Assumptions C13_sync_configures_new.
+
+(** a deleted event of an active manager hands the instance's running container to cleanup, unless the event
+    is stale (the running container was configured from the manifest that exists now) *)
 Theorem C13_gone_to_cleanup_event : forall s i c oc oi,
-  active s = true -> rget (running s) i = Some c ->
+  active s = true -> rget (running s) i = Some c -> runs_manifest s i = false ->
   let s' := handle s (EvDeleted i) oc oi in
   rget (running s') i = None /\ lget (cleanup s') (LCont c) = Some c /\
   (forall j, j <> i -> rget (running s') j = rget (running s) j).
-Proof. intros s i c oc oi H1 H2. exact (deleted_hands_over s i c oc oi H1 H2). Qed.
+Proof. intros s i c oc oi H1 H2 H3. exact (deleted_hands_over s i c oc oi H1 H2 H3). Qed.
 Print Assumptions C13_gone_to_cleanup_event.
 
-(** a resynchronisation hands over a running container whose cache entry is gone or replaced
-    (instance with a single container directory) *)
-Theorem C13_gone_to_cleanup_sync : forall s oc oi i f0,
-  wf s -> lone i f0 s ->
-  rget (running s) i = Some (i, f0) -> (forall ok, cget (cache s) i <> Some (f0, ok)) ->
-  rget (running (synchronize s oc oi)) i = None /\
-  lget (cleanup (synchronize s oc oi)) (LCont (i, f0)) = Some (i, f0).
-Proof. intros s oc oi i f0 W L H1 H2. exact (sync_hands_over s oc oi i f0 W L H1 H2). Qed.
+(** a resynchronisation hands over a running generation whose manifest is gone, or was replaced by one that is
+    not configured yet, and then configures the new manifest *)
+Theorem C13_gone_to_cleanup_sync : forall ops oc oi i x,
+  let s := run ops init in
+  linked s (rget (running s) i) = Some x ->
+  (forall f ok, cget (cache s) i = Some (f, ok) -> aget (apps s) (i, f) = None) ->
+  lget (cleanup (synchronize s oc oi)) (LCont x) = Some x /\
+  rget (running (synchronize s oc oi)) i = match cget (cache s) i with Some (f, true) => Some (i, f) | _ => None end.
+Proof. intros ops oc oi i x. exact (reach_gone_to_cleanup_sync ops oc oi i x). Qed.
 Print Assumptions C13_gone_to_cleanup_sync.
 
-(** a resynchronisation never starts a finished / aborted / oom container that is not running *)
-Theorem C13_no_restart_finished_partial : forall s oc oi i f0 fl,
-  wf s -> lone i f0 s ->
-  aget (apps s) (i, f0) = Some fl -> flagged fl = true -> rget (running s) i = None ->
-  rget (running (synchronize s oc oi)) i <> Some (i, f0).
-Proof. intros s oc oi i f0 fl W L H1 H2 H3. exact (sync_no_restart s oc oi i f0 W L fl H1 H2 H3). Qed.
-Print Assumptions C13_no_restart_finished_partial.
-
-(** an unchanged running container is left running: by every handler except a deleted event for its own
-    instance and a resynchronisation (every state) ... *)
-Theorem C13_unchanged_stays_events : forall s e oc oi i c,
-  rget (running s) i = Some c -> e <> EvDeleted i -> (e = EvReadyUp -> active s = true) ->
-  rget (running (handle s e oc oi)) i = Some c.
-Proof. intros s e oc oi i c H1 H2 H3. exact (handler_keeps_running s e oc oi i c H1 H2 H3). Qed.
-Print Assumptions C13_unchanged_stays_events.
-
-(** ... and by a resynchronisation when no other generation of the instance has a container directory *)
-Theorem C13_unchanged_stays_partial : forall s oc oi i f0 ok,
-  wf s -> lone i f0 s ->
-  rget (running s) i = Some (i, f0) -> cget (cache s) i = Some (f0, ok) ->
-  rget (running (synchronize s oc oi)) i = Some (i, f0).
-Proof. intros s oc oi i f0 ok W L H1 H2. exact (sync_keeps_unchanged s oc oi i f0 W L ok H1 H2). Qed.
-Print Assumptions C13_unchanged_stays_partial.
-
-(** after a resynchronisation a not-yet-running instance runs exactly when its cached manifest can be
-    configured: (a) its only container directory is the current generation *)
-Theorem C13_sync_running_partial : forall s oc oi i f0 ok fl,
-  wf s -> lone i f0 s ->
-  cget (cache s) i = Some (f0, ok) -> aget (apps s) (i, f0) = Some fl -> rget (running s) i = None ->
-  rget (running (synchronize s oc oi)) i =
-    if target_exists s (lget (cleanup s) (LInst i)) || flagged fl || negb ok then None else Some (i, f0).
-Proof. intros s oc oi i f0 ok fl W L H1 H2 H3. exact (sync_running_lone s oc oi i f0 W L ok fl H1 H2 H3). Qed.
-Print Assumptions C13_sync_running_partial.
-
-(** (b) it has no container directory *)
-Theorem C13_sync_running_new : forall s oc oi i,
-  wf s -> none i s -> rget (running s) i = None ->
-  rget (running (synchronize s oc oi)) i =
-    match cget (cache s) i with Some (f, true) => Some (i, f) | _ => None end.
-Proof. intros s oc oi i W N H. exact (sync_running_none s oc oi i W N H). Qed.
-Print Assumptions C13_sync_running_new.
-
-(** a created event configures the container of the current cache entry *)
+(** a created event configures the container of the current cache entry, unless it already finished *)
 Theorem C13_created_configures : forall s i f oc oi,
   active s = true -> rget (running s) i = None -> cget (cache s) i = Some (f, true) ->
+  is_finished s i = false ->
   rget (running (handle s (EvCreated i) oc oi)) i = Some (i, f).
-Proof. intros s i f oc oi H1 H2 H3. exact (created_configures s i f oc oi H1 H2 H3). Qed.
+Proof. intros s i f oc oi H1 H2 H3 H4. exact (created_configures s i f oc oi H1 H2 H3 H4). Qed.
 Print Assumptions C13_created_configures.
 
-(** non-vacuity: a reachable state with two instances, one running unchanged (kept), one whose cache entry is
-    gone (handed over), satisfying the hypotheses of the partial theorems *)
+(** * The histories that refuted the statement before the repairs, as regression examples *)
+Definition w_late_event : list op :=
+  [ReadyUp; CachePut 0 0 true; Deliver [] []; Exit 0 KExit; Deliver [] []].
+Definition w_stale_delete : list op :=
+  [ReadyUp; Deliver [] []; CachePut 0 0 true; CacheDel 0; CachePut 0 1 true;
+   Deliver [] []; Deliver [] []; Deliver [] []].
+Definition w_two_generations (oc : list cont) : list op :=
+  [ReadyUp; Deliver [] []; CachePut 0 0 true; Deliver [] []; CacheDel 0; Deliver [] [];
+   CachePut 0 1 true; Deliver [] []; ReadyDown; Deliver [] []; ReadyUp; Deliver oc []].
+Definition w_replaced_while_down : list op :=
+  [CachePut 0 0 true; ReadyUp; Deliver [] []; Deliver [] []; CachePut 0 1 true; Restart; ReadyUp; Deliver [] []].
+
+Example C13_regressions :
+  (let s := run w_late_event init in rget (running s) 0 = None /\ one_link s = true) /\
+  (let s := run w_stale_delete init in rget (running s) 0 = Some (0, 1) /\ cleanup s = [] /\ one_link s = true) /\
+  (forall oc, oc = [(0, 0); (0, 1)] \/ oc = [(0, 1); (0, 0)] ->
+     rget (running (run (w_two_generations oc) init)) 0 = Some (0, 1)) /\
+  (let s := run w_replaced_while_down init in
+     rget (running s) 0 = Some (0, 1) /\ lget (cleanup s) (LCont (0, 0)) = Some (0, 0) /\ one_link s = true).
+Proof.
+  split; [vm_compute; auto | split; [vm_compute; auto | split]].
+  - intros oc [->| ->]; vm_compute; reflexivity.
+  - vm_compute. auto.
+Qed.
+
+(** non-vacuity of the hypotheses: a reachable state with a running unchanged container (kept), one whose
+    cache entry is gone (handed over), a finished one (not restarted) and a new manifest (configured) *)
 Definition ex_ops : list op :=
   [ReadyUp; Deliver [] []; CachePut 0 0 true; Deliver [] []; CachePut 1 1 true; Deliver [] [];
-   ReadyDown; Deliver [] []; CacheDel 1; Deliver [] []].
-Definition ex_s := with_active (run ex_ops init) true.
+   CachePut 2 2 true; Deliver [] []; Flag (2, 2) KOom; Boot; CachePut 1 3 true; CachePut 3 4 true;
+   CacheDel 0; CachePut 0 5 true].
 Example C13_nonvacuous :
-  wf ex_s /\ lone 0 0 ex_s /\ lone 1 1 ex_s /\
-  rget (running ex_s) 0 = Some (0, 0) /\ cget (cache ex_s) 0 = Some (0, true) /\
-  rget (running ex_s) 1 = Some (1, 1) /\ cget (cache ex_s) 1 = None /\
-  one_link (synchronize ex_s [] []) = true /\
-  rget (running (synchronize ex_s [] [])) 0 = Some (0, 0) /\
-  lget (cleanup (synchronize ex_s [] [])) (LCont (1, 1)) = Some (1, 1).
-Proof.
-  split; [|split; [|split]].
-  - unfold ex_s. apply (wf_same_links (run ex_ops init)); try reflexivity. apply links_wf_all.
-  - vm_compute. split; [|split].
-    + repeat constructor; cbn; intuition discriminate.
-    + auto.
-    + intros c' [<-|[<-|[]]] H; [reflexivity | discriminate H].
-  - vm_compute. split; [|split].
-    + repeat constructor; cbn; intuition discriminate.
-    + auto.
-    + intros c' [<-|[<-|[]]] H; [discriminate H | reflexivity].
-  - vm_compute. repeat split.
-Qed.
+  let s := run ex_ops init in let s' := synchronize s [] [] in
+  active s = false /\
+  (exists fl, aget (apps s) (2, 2) = Some fl /\ flagged fl = true) /\ cget (cache s) 2 = Some (2, true) /\
+  rget (running s') 0 = Some (0, 5) /\ rget (running s') 1 = Some (1, 3) /\ rget (running s') 2 = None /\
+  rget (running s') 3 = Some (3, 4) /\ lget (cleanup s') (LInst 2) = Some (2, 2) /\ one_link s' = true.
+Proof. vm_compute. repeat split. eexists; split; reflexivity. Qed.
